@@ -1,6 +1,7 @@
 package http
 
 import (
+	"bytes"
 	"context"
 	"encoding/json"
 	"expvar"
@@ -528,8 +529,25 @@ func (s *Server) handlePostTx(w http.ResponseWriter, r *http.Request) {
 
 	// TODO(fwd): Prevent halt lock release during copy & apply.
 
+	// A forwarded transaction extends the primary's position by one. A file in
+	// snapshot form replaces the whole database and its log whatever the
+	// position is, which is only meant for data coming from the primary or from
+	// the backup service.
+	hdrBuf := make([]byte, ltx.HeaderSize)
+	var hdr ltx.Header
+	if _, err := io.ReadFull(r.Body, hdrBuf); err != nil {
+		Error(w, r, fmt.Errorf("read ltx header: %w", err), http.StatusBadRequest)
+		return
+	} else if err := hdr.UnmarshalBinary(hdrBuf); err != nil {
+		Error(w, r, fmt.Errorf("decode ltx header: %w", err), http.StatusBadRequest)
+		return
+	} else if hdr.IsSnapshot() && !db.Pos().IsZero() {
+		Error(w, r, fmt.Errorf("snapshot cannot be forwarded"), http.StatusBadRequest)
+		return
+	}
+
 	// Wrap request body in a chunked reader.
-	ltxPath, err := db.WriteLTXFileAt(r.Context(), r.Body)
+	ltxPath, err := db.WriteLTXFileAt(r.Context(), io.MultiReader(bytes.NewReader(hdrBuf), r.Body))
 	if err != nil {
 		Error(w, r, fmt.Errorf("write ltx file: %s", err), http.StatusInternalServerError)
 		return
